@@ -4,7 +4,15 @@
 patch="$(readlink -f "$1")"; shift
 wt="/tmp/try_$$"; ev="/tmp/try_ev_$$"
 git -C /repo worktree add --detach "$wt" HEAD -q || exit 2
-( cd "$wt" && git apply "$patch" ) || { git -C /repo worktree remove --force "$wt"; exit 2; }
+if ! ( cd "$wt" && git apply "$patch" 2>/dev/null ); then
+  # a later repair rewrote the lines the patch touches: fall back to the commit recorded in the seed's meta.json (base_commit)
+  base=$(python3 -c "import json,os,sys; print(json.load(open(os.path.join(os.path.dirname(sys.argv[1]),'meta.json'))).get('base_commit',''))" "$patch" 2>/dev/null)
+  git -C /repo worktree remove --force "$wt"
+  [ -n "$base" ] || exit 2
+  git -C /repo worktree add --detach "$wt" "$base" -q || exit 2
+  ( cd "$wt" && git apply "$patch" ) || { git -C /repo worktree remove --force "$wt"; exit 2; }
+  echo "(patch applied to its base commit $base, not to HEAD)"
+fi
 cd "$(dirname "$0")/.."
 for p in "$@"; do
   echo "== $p"; GLYLES_REPO="$wt" VERIF_EVIDENCE_DIR="$ev" ./check "$p" quick 2>&1 | grep -v "^KNOWN-FINDING\|^line " | tail -${TRY_TAIL:-6} | cut -c1-400
